@@ -21,18 +21,22 @@ def gen_cases(ctx, ncase):
         hetero = rng.random() < .5
         dbin = gen_db(rng, ndim, nvar, n, nfex, p_na=(0.25 if hetero else 0.0), p_coord_na=(0.08 if rng.random() < .3 else 0.0),
                       with_verr=rng.random() < .3, with_sel=rng.random() < .25)
+        calcul = [0] if rng.random() < .8 else [1] + [rng.choice([1, 2, 3]) for _ in range(ndim)]
+        if calcul[0] == 1 and nfex > 0: calcul = [0]     # block kriging needs a grid target (no external drift column there)
         m = 5
-        dbout = gen_db(rng, ndim, 0, m, nfex, p_na=0.3 if rng.random() < .3 else 0.0)
+        if calcul[0] == 1:
+            dbout = gen_grid_db(rng, ndim); m = dbout['n']
+        else:
+            dbout = gen_db(rng, ndim, 0, m, nfex, p_na=0.3 if rng.random() < .3 else 0.0)
         dbout['z'] = []; dbout['verr'] = []
         # one target coincides with a datum
         k = rng.randrange(n)
-        if all(dbin['coords'][d][k] is not None for d in range(ndim)):
+        if calcul[0] == 0 and all(dbin['coords'][d][k] is not None for d in range(ndim)):
             for d in range(ndim): dbout['coords'][d][0] = dbin['coords'][d][k]
         model = gen_model(rng, ndim, nvar, order=order, nfex=nfex)
         if rng.random() < .65: neigh = [0]
         else:
             neigh = [1, rng.choice([1, 2, 3]), rng.choice([4, 6, 8, n]), dy(rng.choice([20, 40, 1000]))]
-        calcul = [0] if rng.random() < .85 else [1] + [rng.choice([1, 2, 3]) for _ in range(ndim)]
         py = {'ndim': ndim, 'nvar': nvar, 'dbin': dbin, 'dbout': dbout, 'model': model, 'neigh': neigh, 'calcul': calcul}
         cases.append((py, kriging_case(ndim, nvar, dbin, dbout, model, neigh, calcul, list(range(m)))))
         ctx.dist('ndim%d' % ndim); ctx.dist('nvar%d' % nvar); ctx.dist('order%d' % order); ctx.dist('nfex%d' % nfex)
@@ -67,8 +71,14 @@ def compare_target(ctx, py, t, mo, what_prefix=''):
         me = float(unq(mest[v]))
         if est[v] is None or abs(float(est[v]) - me) > tol * (zscale + abs(me)):
             msgs.append('estimate[var %d]: impl %s, system solution %.12g' % (v, est[v] if est[v] is None else float(est[v]), me))
-        if not block:
-            mv = max(float(unq(mvar[v])), 0.0)
+        if True:
+            mvq = unq(mvar[v])
+            if block and t.get('cvv'):
+                # block variance: the model gives C00_point - r.w ; replace the point term by the exact mean of the covariances
+                # between the two sets of discretisation points the code uses (regular x randomised), harvested pair by pair
+                cvv = sum(undy(M[v][v]) for M in t['cvv']) / len(t['cvv'])
+                mvq = mvq - undy(t['c00'][v][v]) + cvv
+            mv = max(float(mvq), 0.0)
             if std[v] is None or abs(float(std[v]) ** 2 - mv) > 10 * tol * vscale:
                 msgs.append('stdev^2[var %d]: impl %s, documented C00 - lambda.Sigma0 + mu.X0 = %.12g' % (v, None if std[v] is None else float(std[v]) ** 2, mv))
         mz = float(unq(mvarz[v]))
@@ -177,7 +187,7 @@ def run(ctx):
     if not proofs_ok: proof_break_violation(ctx, found_input)
     ctx.assumptions = ['covariance values enter as oracles harvested from Model::eval on exactly the pairs used (the covariance function itself is C03\'s subject)',
                        'round-off tolerance 1e-9 x exact condition number (inf-norm) computed by the model',
-                       'block kriging: estimation variance not compared (the code uses a randomised second discretisation for Cvv)']
+                       'block kriging: the block variance term Cvv is the exact mean (computed in checks/C01.py) of the covariance oracle over the pairs of discretisation points the code uses, harvested from KrigingSystem']
 
 if __name__ == '__main__':
     main(run)
